@@ -168,6 +168,12 @@ def _structure_job(args):
             G = rng.integers(-3, 4, (n, n, 4)).astype(float)
             Hh = G + oherm(G)
             herm_measure(rec, "integer-dense", {"structure": "integer Hermitian", "A": Hh.tolist()}, Hh, spec(Hh))
+            if n >= 3:
+                # first row / column (off the diagonal) so small that the squares underflow
+                Hu = Hh.copy()
+                Hu[1:, 0] *= 2.0 ** -530
+                Hu[0, 1:] *= 2.0 ** -530
+                herm_measure(rec, "underflow-subcolumn", {"structure": "integer Hermitian, first off-diagonal row/column scaled by 2^-530", "n": n}, Hu, spec(Hu))
             v = rng.standard_normal((n, 1, 4))
             R1 = omul(v, oherm(v))
             herm_measure(rec, "low-rank", {"structure": "rank one", "v": v.tolist()}, R1, spec(R1))
